@@ -411,7 +411,9 @@ func (c *c15Case) genListEntries(typ api.DefinedType, n int) []string {
 		for _, cm := range c15Comms {
 			cand = append(cand, c15CommStr(cm))
 		}
-		cand = append(cand, "^65000:.*$", "^6500[01]:[12]$", "^0:666$", "^64512:1..$", "65001:", ":1$")
+		// (no member that gobgp canonicalises to the same pattern as another one, e.g. "0:666" and
+		// "^0:666$": removing one would remove both)
+		cand = append(cand, "^65000:.*$", "^6500[01]:[12]$", "^0:66.$", "^64512:1..$", "65001:", ":1$")
 	case api.DefinedType_DEFINED_TYPE_NEIGHBOR:
 		for _, p := range c.peers {
 			if p.Kind != simRSClient {
